@@ -35,6 +35,8 @@ class Run:
         self.node = None
         self.started = []
         self.ndeliv = 0
+        self.dstack = []
+        self.reacts = []           # [eid, value, ticks] of emits made by the consumer inside a hand-over
         self.mixacks = []          # per ack: global index of the delivery whose future was resolved (-1: none)
         self.mixtasks = []         # per "task" inside a mix: the job completed (None if there was none)
 
@@ -88,14 +90,14 @@ class Run:
         if mode == "ctl":
             def sinkf(x, metadata=None):
                 fut = run.loop.create_future()
-                fut._didx = run.ndeliv - 1
+                fut._didx = run.dstack[-1] if run.dstack else run.ndeliv - 1
                 run.outstanding.append(fut)
                 return fut
         elif mode == "coro":
             # a native coroutine as consumer: the sink returns a coroutine OBJECT
             # (its body starts only when the node's caller schedules it: the delivery index is taken at call time)
             def sinkf(x, metadata=None):
-                didx = run.ndeliv - 1
+                didx = run.dstack[-1] if run.dstack else run.ndeliv - 1
 
                 async def body():
                     fut = run.loop.create_future()
@@ -110,12 +112,22 @@ class Run:
             @gen.coroutine
             def sinkf(x, metadata=None):
                 fut = run.loop.create_future()
-                fut._didx = run.ndeliv - 1
+                fut._didx = run.dstack[-1] if run.dstack else run.ndeliv - 1
                 run.outstanding.append(fut)
                 yield fut
         else:
             def sinkf(x, metadata=None):
                 return None
+        react = {int(k_): v_ for k_, v_ in (self.case.get("react") or {}).items()}
+        if react:
+            # a consumer that, on receiving certain elements, synchronously emits follow-up elements into the source
+            # BEFORE it returns (inside the hand-over call of the node that delivered to it)
+            inner = sinkf
+
+            def sinkf(x, metadata=None, inner=inner):
+                for y in react.get(x, []) if isinstance(x, int) else []:
+                    run.react_emit(y)
+                return inner(x, metadata=metadata)
         self.sink = n.sink(sinkf)
         orig = self.sink.update
 
@@ -123,7 +135,11 @@ class Run:
             mids = [(m['id'], 'ref' in m) if isinstance(m, dict) and 'id' in m else (999999, False) for m in (metadata or [])]
             run.deliv.append([run.loop.ticks(), x, mids])
             run.ndeliv += 1
-            return orig(x, who=who, metadata=metadata)
+            run.dstack.append(run.ndeliv - 1)      # (a reacting consumer makes nested deliveries inside this call)
+            try:
+                return orig(x, who=who, metadata=metadata)
+            finally:
+                run.dstack.pop()
         self.sink.update = wrapped
 
     def counter(self, i):
@@ -135,6 +151,24 @@ class Run:
                     cb(*a, **k)
             self.counters[i] = RefCounter(initial=0, cb=(lambda i=i: self.fired.append(i)), loop=L())
         return self.counters[i]
+
+    def react_emit(self, y):
+        eid = self.nemit
+        self.nemit += 1
+        self.reacts.append([eid, y, self.loop.ticks()])
+        try:
+            fut = self.sources[0].emit(y)
+        except Exception:
+            self.failed.append(eid)
+            return
+
+        async def waiter():
+            try:
+                await fut
+                self.done.append(eid)
+            except Exception:
+                self.failed.append(eid)
+        self.loop.create_task(waiter())
 
     def thunk(self, act):
         """the immediate effect of a sub-action of a "mix" (run inside a loop callback)"""
@@ -345,7 +379,8 @@ class Run:
         o = {"now": self.loop.ticks(), "deliv": self.deliv, "done": sorted(self.done), "failed": sorted(self.failed),
              "counts": [self.counters[i].count if i in self.counters else 0 for i in range(nrc)],
              "fired": list(self.fired), "nout": len(self.outstanding), "ntasks": len(self.tasks),
-             "started": list(self.started), "mixacks": self.mixacks, "mixtasks": self.mixtasks}
+             "started": list(self.started), "mixacks": self.mixacks, "mixtasks": self.mixtasks, "reacts": self.reacts}
+        self.reacts = []
         self.mixacks = []
         self.mixtasks = []
         self.deliv = []
